@@ -99,8 +99,8 @@ def structures(tier):
     ev_kinds = ['As', 'Ae', 'An', 'Ss', 'Se', 'ND', 'NS', 'ED', 'ES', 'TN'] if tier == 'quick' else sorted(KINDS)
     for pa in pres:
         for pb in pres:
-            if tier == 'quick' and pa and pb and pa != pb:
-                continue
+            if pa and pb and pa != pb and (tier == 'quick' or len(pa) + len(pb) > 2):
+                continue        # two different non-empty pre-states only when both are single events (thorough)
             for e1 in ev_kinds:
                 for e2 in ev_kinds:
                     sts.append({'kind': 'swap', 'pre': [pa, pb], 'e': [e1, e2]})
